@@ -343,3 +343,95 @@ def diff_trees(a, b, only=None):
     """names of files that differ / exist on one side only (restricted by predicate `only`)"""
     names = sorted(set(a) | set(b))
     return [n for n in names if (only is None or only(n)) and a.get(n) != b.get(n)]
+
+# ------------------------------------------------------------------ multi-module sets with deliberate name collisions
+COLLIDE_NAMES = ["body", "info", "data", "item", "a-b", "int", "hdr", "value", "class"]
+MULTI_MODES = ["cross-import", "cross-noimport", "same-module", "member-cross", "none", "same-toplevel"]
+
+def _inline_body(rng, uniq, kind=None):
+    """text of an inline constructed / enumerated type whose inner identifiers are unique (`uniq`)"""
+    kind = kind or rng.choice(["SEQUENCE", "SET", "CHOICE", "ENUMERATED", "SEQUENCE", "OF"])
+    if kind == "ENUMERATED": return f"ENUMERATED {{ r{uniq}, g{uniq}, b{uniq} }}"
+    if kind == "CHOICE": return f"CHOICE {{ c{uniq} [0] NULL, d{uniq} [1] BOOLEAN }}"
+    if kind == "OF": return f"SEQUENCE OF SEQUENCE {{ o{uniq} [0] INTEGER (0..{rng.choice([7, 255, 65535])}) }}"
+    return f"{kind} {{ x{uniq} [0] INTEGER, y{uniq} [1] {rng.choice(['BOOLEAN', 'IA5String', 'OCTET STRING (SIZE(2))'])} OPTIONAL }}"
+
+def gen_multi(rng, base, k, mode, tagdefault=None):
+    """k module files with IMPORTS between them and deliberate C-name collisions:
+      cross-import   the same inline member name in a type of module 0 and of module 1, module 0 imports module 1's type
+      cross-noimport the same, without any reference between the two modules
+      same-module    the collision inside module 0 (control)
+      member-cross   an anonymous `SEQUENCE OF SEQUENCE {...}` element ("Member") in module 0 and module 1
+      none           no collision (control)
+      same-toplevel  modules 0 and 1 both define a top-level type of the same name, each used in its own module
+    Returns (files [(file name, text)], top-level type names (None when names are ambiguous), description)."""
+    td = {"EXPLICIT": "EXPLICIT TAGS ", "IMPLICIT": "IMPLICIT TAGS ", "AUTOMATIC": "AUTOMATIC TAGS ", None: ""}[tagdefault]
+    mods = [f"{base}M{i}" for i in range(k)]
+    types = [[] for _ in range(k)]          # (name, text)
+    imports = [dict() for _ in range(k)]     # from-module index -> set of names
+    # a little generated content per module (depth 1: no inline constructed members, no unplanned clashes)
+    for i in range(k):
+        g = NGen(rng, nasty=0.3, tagdefault=tagdefault, max_depth=1)
+        g.idn = 100 * (i + 1)            # member identifiers distinct across the modules of the set
+        m = g.gen_module("x", 2)
+        mapping = {n: f"{base}P{i}{n}" for n, _ in m["types"]}
+        def ren(t):
+            t = dict(t)
+            if t["k"] == "REF": t["name"] = mapping.get(t["name"], t["name"])
+            if "comps" in t: t["comps"] = [dict(c, type=ren(c["type"])) for c in t["comps"]]
+            if "elem" in t: t["elem"] = ren(t["elem"])
+            return t
+        for n, t in m["types"]: types[i].append((mapping[n], genmod.type_text(ren(t))))
+    name = rng.choice(COLLIDE_NAMES)
+    other = rng.choice([n for n in COLLIDE_NAMES if n != name])
+    def col(i, j, member, kind=None, peer=None):
+        u = f"{i}{j}"
+        lines = [f"{member} [0] {_inline_body(rng, u, kind)}"]
+        if peer: lines.append(f"peer{u} [1] {peer} OPTIONAL")
+        lines.append(f"tail{u} [2] BOOLEAN")
+        return (f"{base}Col{u}", "SEQUENCE {\n    " + ",\n    ".join(lines) + "\n  }")
+    def link(i, j, tname):
+        if i != j: imports[i].setdefault(j, set()).add(tname)
+        return tname
+    names_ok = True
+    if mode == "cross-import":
+        b = col(1, 0, name); types[1].append(b)
+        types[0].append(col(0, 0, name, peer=link(0, 1, b[0])))
+    elif mode == "cross-noimport":
+        types[0].append(col(0, 0, name)); types[1].append(col(1, 0, name))
+    elif mode == "same-module":
+        a = col(0, 0, name); types[0].append(a); types[0].append(col(0, 1, name, peer=a[0]))
+        types[1].append(col(1, 0, other, peer=link(1, 0, a[0])))
+    elif mode == "member-cross":
+        b = col(1, 0, other, kind="OF"); types[1].append(b)
+        types[0].append(col(0, 0, name, kind="OF", peer=link(0, 1, b[0])))
+    elif mode == "none":
+        b = col(1, 0, other); types[1].append(b)
+        types[0].append(col(0, 0, name, peer=link(0, 1, b[0])))
+    elif mode == "same-toplevel":
+        shared = rng.choice(["Header", "Shared", "Info", "A-B"])
+        names_ok = False
+        for i in (0, 1):
+            types[i].append((shared, ["SEQUENCE { version [0] INTEGER (0..15), flags [1] BIT STRING (SIZE(8)) }",
+                                      "SEQUENCE { length [0] INTEGER (0..65535), kind [1] ENUMERATED { request, response } }"][i]
+                             if rng.random() < 0.7 else rng.choice(["INTEGER (0..7)", "IA5String (SIZE(1..4))", "ENUMERATED { p, q }"]) if i == 0 else "BOOLEAN"))
+            types[i].append((f"{base}Use{i}", f"SEQUENCE {{ header [0] {shared}, more{i} [1] OCTET STRING OPTIONAL }}"))
+        if k > 2: types[2].append((f"{base}Far", f"SEQUENCE {{ u0 [0] {link(2, 0, base + 'Use0')}, u1 [1] {link(2, 1, base + 'Use1')} OPTIONAL }}"))
+    else:
+        raise ValueError(mode)
+    # extra references between the modules so that every module is connected to another one
+    for i in range(k):
+        j = (i + 1) % k
+        if k > 1 and not imports[i] and mode != "cross-noimport":
+            tn = types[j][0][0]
+            types[i].append((f"{base}Ref{i}", f"SEQUENCE {{ far{i} [0] {link(i, j, tn)} OPTIONAL }}"))
+    files = []
+    for i in range(k):
+        lines = [f"{mods[i]} DEFINITIONS {td}::= BEGIN"]
+        if imports[i]:
+            lines.append("  IMPORTS " + " ".join(", ".join(sorted(v)) + f" FROM {mods[j]}" for j, v in sorted(imports[i].items())) + ";")
+        for n, t in types[i]: lines.append(f"  {n} ::= {t}")
+        lines.append("END")
+        files.append((mods[i] + ".asn1", "\n".join(lines) + "\n"))
+    names = [n for ts in types for n, _ in ts] if names_ok else None
+    return files, names, f"{mode}:{name}"
